@@ -57,7 +57,8 @@ func (b *BasePathFs) RealPath(name string) (path string, err error) {
 
 	bpath := filepath.Clean(b.path)
 	path = filepath.Clean(filepath.Join(bpath, name))
-	if !strings.HasPrefix(path, bpath) {
+	if path != bpath && !strings.HasPrefix(path, strings.TrimSuffix(bpath, FilePathSeparator)+FilePathSeparator) {
+		// a plain string prefix test would also accept siblings such as /basement for /base
 		return name, os.ErrNotExist
 	}
 
